@@ -61,6 +61,7 @@ func c05Contents(maxRows int) [][][]any {
 type c05Queries struct {
 	conds  []*qCond
 	lists  [][]qItem
+	lists3 [][]qItem
 	sorts  [][]qSort
 	limits [][3]int // limit, offset, limitFirst(0/1)
 }
@@ -157,6 +158,24 @@ func buildC05Queries(thorough bool) *c05Queries {
 			q.lists = append(q.lists, []qItem{a, b})
 		}
 	}
+	// longer lists of columns only: every ordered list of 3 column items (plain, aliased, qualified) and every
+	// ordered list of 4 plain columns - repeated columns followed by other columns included
+	for _, a := range items[:7] {
+		for _, b := range items[:7] {
+			for _, c := range items[:7] {
+				q.lists3 = append(q.lists3, []qItem{a, b, c})
+			}
+		}
+	}
+	for _, a := range items[:4] {
+		for _, b := range items[:4] {
+			for _, c := range items[:4] {
+				for _, d := range items[:4] {
+					q.lists3 = append(q.lists3, []qItem{a, b, c, d})
+				}
+			}
+		}
+	}
 	// ORDER BY lists (over the columns of SELECT *): <= 2 keys x direction
 	keys := []qRef{{"", "a"}, {"", "b"}, {"", "c"}, {"", "d"}, {"t", "a"}}
 	dirs := []string{"", "ASC", "DESC"}
@@ -194,7 +213,7 @@ func runC05(env *lib.Env, rep *lib.Report) {
 	qs := buildC05Queries(env.Thorough())
 	rep.Bounds["table contents"] = fmt.Sprintf("%d: every multiset of <= %d rows over a in {1,2}, b in {1,2^40}, c in {x,y}, d in {true,false}, the empty table, two fixed 6-row tables with ties, one 7-row table with negative/extreme numbers and strings of different length and case", len(contents), maxRows)
 	rep.Bounds["WHERE conditions"] = fmt.Sprintf("%d: every single atom (col|lit op col|lit, six operators, type-correct), every 2- and 3-atom AND/OR pattern over 8 representative atoms%s", len(qs.conds), map[bool]string{true: ", every 4-atom pattern over 5 atoms", false: ""}[env.Thorough()])
-	rep.Bounds["select lists"] = fmt.Sprintf("%d: *, every ordered list of <= 2 items from 11 (columns, aliased, qualified, comparison expressions, literals; repeated columns included)", len(qs.lists))
+	rep.Bounds["select lists"] = fmt.Sprintf("%d: *, every ordered list of <= 2 items from 11 (columns, aliased, qualified, comparison expressions, literals; repeated columns included); plus %d lists of columns only: every ordered list of 3 from the 7 column items and of 4 from the 4 plain columns", len(qs.lists), len(qs.lists3))
 	rep.Bounds["ORDER BY lists"] = len(qs.sorts)
 	rep.Bounds["LIMIT/OFFSET"] = fmt.Sprintf("%d combinations of {absent,0,1,2,5} in both orders", len(qs.limits))
 	rep.Bounds["cross-clause"] = "each clause in full with the others at defaults; plus every (select list x representative where), (where x order by), (order by x limit/offset), (select list with alias x order by alias x limit) combination"
@@ -222,6 +241,9 @@ func runC05(env *lib.Env, rep *lib.Report) {
 				for _, cond := range repConds[:3] {
 					r.check(qw, &qQuery{items: l, from: from, where: cond, limit: -1, offset: -1}, "select-list", "")
 				}
+			}
+			for _, l := range qs.lists3 {
+				r.check(qw, &qQuery{items: l, from: from, limit: -1, offset: -1}, "select-list/columns", "")
 			}
 			// (3) ORDER BY in full x representative WHERE
 			for _, s := range qs.sorts {
